@@ -313,7 +313,7 @@ def generate(tier, seed):
             cases.append(mk(sizes, [leaf], ['leaf', 0] if i % 3 else rand_expr(rng, [leaf], 1), EDGES[i % len(EDGES)], names=i % 2))
             i += 1
     # C. random genomes, mixed leaves, expression trees to depth 3
-    n_rand = 1500 if quick else 8000
+    n_rand = 1000 if quick else 8000
     for j in range(n_rand):
         nchrom = rng.randint(1, 4)
         sizes = [rng.randint(1, 7 if j % 5 == 0 else 4) for _ in range(nchrom)]
